@@ -13,7 +13,7 @@ M(c, g1) == St(c, "MODE", <<<<"#one">>, g1>>)
 Ranks2 == { M(A, <<"+" \o r, n>>) : r \in {"a", "o", "h", "v"}, n \in {"bob", "carol"} }
           \cup { M(A, <<"+t">>), M(A, <<"+i">>), M(A, <<"-o", "alice">>), M(A, <<"-q", "alice">>) }
 Acts ==
-    { St(c, "KICK", <<<<"#one">>, v>>) : c \in {A, B, C, D}, v \in {<<"carol">>, <<"bob">>, <<"alice">>, <<"bob", "bob">>, <<"nobody", "carol">>} }
+    { St(c, "KICK", <<<<"#one">>, v>>) : c \in {A, B, C, D}, v \in {<<"carol">>, <<"bob">>, <<"alice">>, <<"bob", "bob">>, <<"nobody", "carol">>, <<"bob", "carol", "bob">>} }
     \cup { St(B, "KICK", <<<<"#one">>, <<"carol">>, <<"get: out">>>>), St(B, "KICK", <<<<"#none">>, <<"carol">>>>),
            St(A, "KICK", <<<<"#one">>, <<"bob", "carol", "alice">>>>) }
     \cup { St(c, "TOPIC", <<<<"#one">>, <<t>>>>) : c \in {A, B, C, D}, t \in {"new: topic", "", ":-)"} }
